@@ -57,6 +57,11 @@ fn prop_history(ops: &Vec<Op>, rec: &mut CaseRec) -> Result<(), Violation> {
   let mut window_sends = 0u32;
   let mut saw_full_at_send = false;
   let mut removal_midstream = false;
+  // reference rotation: a cursor over the peers in connection order; a send goes to the first
+  // peer with room at or after the cursor and the cursor moves behind it; a peer that leaves is
+  // taken out without disturbing the order of the others (the peer after it is next if it was)
+  let mut cursor = 0usize;
+  let mut removed_at_cursor = false;
   let reset_window = |wc: &mut HashMap<u8, u32>, ws: &mut u32| {
     wc.clear();
     *ws = 0;
@@ -81,6 +86,14 @@ fn prop_history(ops: &Vec<Op>, rec: &mut CaseRec) -> Result<(), Violation> {
         if let Some(pos) = peers.iter().position(|(id, _)| id == p) {
           orch.remove_connection(&format!("uri-{}", p));
           peers.remove(pos);
+          if pos < cursor {
+            cursor -= 1;
+          } else if pos == cursor && seq > 0 {
+            removed_at_cursor = true;
+          }
+          if cursor >= peers.len() {
+            cursor = 0;
+          }
           passes.remove(p);
           changes.remove(p);
           for v in changes.values_mut() {
@@ -110,6 +123,23 @@ fn prop_history(ops: &Vec<Op>, rec: &mut CaseRec) -> Result<(), Violation> {
         if before.iter().any(|(_, r, _)| *r == 0) && any_room {
           saw_full_at_send = true;
         }
+        let predicted: Option<u8> = {
+          let len = peers.len();
+          let mut found = None;
+          if len > 0 {
+            let mut c2 = if cursor >= len { 0 } else { cursor };
+            for _ in 0..len {
+              let (id, room, _) = before[c2];
+              c2 = (c2 + 1) % len;
+              if room > 0 {
+                found = Some(id);
+                break;
+              }
+            }
+            cursor = c2;
+          }
+          found
+        };
         let m = msg(seq);
         seq += 1;
         let res = orch.try_route_sync(m);
@@ -137,6 +167,12 @@ fn prop_history(ops: &Vec<Op>, rec: &mut CaseRec) -> Result<(), Violation> {
               return Err(Violation::new("not_exactly_one", format!("step {}: message {} was handed to {} connections ({:?})", i, seq - 1, total_growth, grew)).with("layer", "orchestrator"));
             }
             let who = grew[0];
+            if predicted != Some(who) {
+              return Err(
+                Violation::new("rotation_order", format!("step {}: message {} went to peer {} but the rotation (peers in connection order {:?}, rooms {:?}) puts peer {:?} next", i, seq - 1, who, peers.iter().map(|(id, _)| *id).collect::<Vec<_>>(), before.iter().map(|b| b.1).collect::<Vec<_>>(), predicted))
+                  .with("layer", "orchestrator"),
+              );
+            }
             let had_room = before.iter().find(|(id, _, _)| *id == who).map(|(_, r, _)| *r > 0).unwrap_or(false);
             if !had_room {
               return Err(Violation::new("sent_to_full_peer", format!("step {}: peer {} had no room", i, who)).with("layer", "orchestrator"));
@@ -192,6 +228,7 @@ fn prop_history(ops: &Vec<Op>, rec: &mut CaseRec) -> Result<(), Violation> {
   rec.nontrivial = saw_full_at_send || removal_midstream;
   rec.label_if(saw_full_at_send, "full_peer_skipped");
   rec.label_if(removal_midstream, "removal_midstream");
+  rec.label_if(removed_at_cursor, "removed_peer_was_next_in_line");
   rec.label_if(peers.len() >= 3, "three_or_more_peers");
   Ok(())
 }
@@ -347,7 +384,14 @@ async fn stall_body(c: &StallCase) -> L2 {
     // everything accepted, minus what the stalled peer may hold, must reach the readers
     tokio::time::sleep(Duration::from_millis(800)).await;
     let got = received.load(std::sync::atomic::Ordering::SeqCst);
-    let stalled_may_hold = 4 + 1 + 8 + (4 * 8192 / (c.msg_kib as u32 * 1024)).max(1) + 2;
+    // what may legitimately sit on the way to the peer that never reads: its pipe (SNDHWM 4), up
+    // to three write batches inside the sending session (being assembled, framed, in the egress
+    // buffer; a batch closes at SNDBATCH_BYTES = 256 KiB or 128 messages), the receiving session's
+    // batch and queue (RCVHWM 1), and the two kernel buffers. The point of the oracle is that the
+    // amount does not grow with the number of messages sent, not the exact constant.
+    let size = c.msg_kib as u32 * 1024;
+    let per_batch = (256 * 1024 / size + 1).min(128);
+    let stalled_may_hold = 4 + 1 + 3 * per_batch + per_batch + (4 * 8192 / size).max(1) + 2 + 8;
     if got + stalled_may_hold < accepted {
       verdict = L2::Violation(
         Violation::new("stalled_peer_hoards", format!("{} accepted, readers got {}, so the never-reading peer holds {} > its queue allowance {}", accepted, got, accepted - got, stalled_may_hold)).with("layer", "stack"),
@@ -369,7 +413,8 @@ async fn stall_body(c: &StallCase) -> L2 {
 pub fn run(run: &mut Run) {
   run.rule = "L1 model: histories of 1..60 operations add(p) / remove(p) / set_room(p, 0|1..3|200) / send / burst(2..24) over up to 6 scripted connections driving the real OutgoingMessageOrchestrator (try_route_sync, then route_message when it reports full); L1 schedule: sender in route_message(wait_for_peer) vs. add_connection, all schedules up to the bound; L2: PUSH (SNDHWM 4) with 1..3 reading PULLs and one PULL that never reads, 64..256 KiB messages. Non-trivial = a full peer had to be skipped while another had room, or a peer was removed mid-stream (schedule: the sender reached the wait; L2: every case). Distinct = hash of the case".into();
   run.assumptions = vec![
-    "fairness is asserted through consequences only (exactly one, ready-only, k-per-peer on stable all-ready windows, bounded pass-over), not through the cursor value".into(),
+    "rotation order is judged against a reference cursor model over the peers in connection order (first peer with room at or after the cursor; a leaving peer does not disturb the order of the others), plus its consequences (exactly one, ready-only, k-per-peer on stable all-ready windows, bounded pass-over)".into(),
+    "one_stalled_peer: the never-reading peer may hold SNDHWM + RCVHWM + four write batches (256 KiB or 128 messages each) + kernel buffers + 8 messages; the bound is there to exclude growth with the number of messages sent".into(),
     "L1 histories are single-threaded".into(),
   ];
   let (n, bound, n_l2) = match run.tier {
